@@ -267,7 +267,15 @@ impl Compiler {
     fn stmt(&mut self, s: &Stmt) {
         match s {
             Stmt::Line { parts, tags, divert } => {
-                self.parts(parts);
+                // T1b: text directly in front of an inline divert is trimmed at its end and then
+                // terminated with exactly one blank, whatever was typed before the arrow
+                match (divert, parts.last()) {
+                    (Some(_), Some(Part::Text(last))) if tags.is_empty() => {
+                        self.parts(&parts[..parts.len() - 1]);
+                        self.parts(&[Part::Text(format!("{} ", last.trim_end_matches([' ', '\t'])))]);
+                    }
+                    _ => self.parts(parts),
+                }
                 for t in tags {
                     self.emit(Ins::Tag(t.clone()));
                 }
@@ -373,7 +381,10 @@ impl Compiler {
                         c,
                     ));
                 }
-                self.emit(Ins::FallOff);
+                // (a gather without choices of its own is simply walked through)
+                if !w.choices.is_empty() {
+                    self.emit(Ins::FallOff);
+                }
                 // bodies: text shown on choosing (start + end, then line end), the body, then the
                 // continuation (the gather, or whatever follows this weave)
                 let mut to_cont = vec![];
